@@ -2,19 +2,32 @@
 import json, os
 VERIF = os.path.dirname(os.path.dirname(os.path.abspath(__file__)))
 
-CLAIMED = {
- 'C14': dict(
-   text='Kernel-checked theorems (PMV/Props/C14.lean) that the code-shaped element functions and lane reductions of the '
-        'Lean model equal the documented truth tables (Kleene and/or/any/all for every lane length and every mask '
-        'representation branch, strict &,|,^,~, ==/!= table with complement/symmetry/reflexivity, ordered comparisons, '
-        'tvl_ comparisons, truth testing), tied to /repo on every run by a correspondence check that sends the same '
-        'operands to the real polymath code and to the compiled model and diffs canonical outputs (exhaustive over '
-        '{T,F,masked} arrays; all representations; all axes).',
-   design='§3 C14', technique='Lean 4 proof (truth tables by case analysis, lanes by induction) + model/code correspondence',
-   note='Trusted: Lean kernel; hand-written model Model/Logic3.lean (checked against the code by the correspondence run); '
-        'NumPy axis handling. Empty-lane corner under a scalar True mask is known finding KF-C14-1.'),
-}
-PENDING = {}
+import importlib, sys
+sys.path.insert(0, os.path.dirname(os.path.abspath(__file__)))
+
+def discover():
+    """a property is claimed iff harness/cNN.py exists and defines MANIFEST (dict: text, design, technique, note)"""
+    claimed, pending = {}, {}
+    for i in range(1, 100):
+        pid = 'C%02d' % i
+        path = os.path.join(VERIF, 'harness', pid.lower() + '.py')
+        if not os.path.exists(path):
+            continue
+        src = open(path).read()
+        ns = {}
+        # MANIFEST / NOT_APPLICABLE are plain literals at module level; evaluate just those assignments
+        import ast
+        for node in ast.parse(src).body:
+            if isinstance(node, ast.Assign) and len(node.targets) == 1 and isinstance(node.targets[0], ast.Name) \
+                    and node.targets[0].id in ('MANIFEST', 'NOT_APPLICABLE'):
+                ns[node.targets[0].id] = ast.literal_eval(node.value)
+        if 'MANIFEST' in ns:
+            claimed[pid] = ns['MANIFEST']
+        elif 'NOT_APPLICABLE' in ns:
+            pending[pid] = ns['NOT_APPLICABLE']
+    return claimed, pending
+
+CLAIMED, PENDING = discover()
 
 def main():
     props = [json.loads(l) for l in open(os.path.join(VERIF, 'properties.jsonl'))]
